@@ -1,5 +1,537 @@
-import Robust.Irc.Inv
+import Robust.Irc.Proofs.RcptApply
+import Robust.Irc.Proofs.RcptCheck
+import Robust.Irc.Proofs.RcptSrv
+/-!
+# C12 — messages reach exactly the entitled sessions under the sender's real identity
+
+An output line is an `Out`: `data` (the rendered IRC line) and `rcpt : List Nat` (Go's
+`InterestingFor`: the numeric ids of the sessions whose message stream contains the line; a services
+pseudo-client `⟨link, k⟩` is reached through its link `link`).
+
+Vocabulary (`Robust/Irc/Proofs/Rcpt*.lean`):
+
+* `Lists st lc id`   – the session stored under `id` lists channel `lc` — the membership relation; between
+                       entries this is the same as "is indexed and on the channel" (`OnChan`);
+* `RcptIs o S svc`   – the recipients of `o` are **exactly** the sessions in the set `S` plus the services
+                       links `svc` (an `iff`, so: everybody in `S` gets the line, and nobody else does);
+* `ToOnly sid o`     – `o.rcpt = [sid.id]`;
+* `NewOut P c c'`    – every line appended between the contexts `c` and `c'` satisfies `P`;
+* `XLine st sid s m o` – per handler: the kinds of lines the handler can produce, each with its exact
+                       recipient set (relative to the state `st` in which the handler starts) and, for relayed
+                       lines, the rendered prefix `s.ircPrefix`;
+* `GPInv st`         – the full state invariant (`GInv` of C14) plus the identity invariant `PInv`: every
+                       stored client session has `ircPrefix = ⟨nick, username, "robust/0x" ++ hex id⟩`.
+
+Sections: 1 the six send helpers; 2 PRIVMSG/NOTICE; 3 JOIN/PART/KICK/TOPIC/MODE/INVITE; 4 NICK/QUIT/KILL;
+5 identity; 6 whole entries and histories.  Every theorem is followed by an `example` on a concrete state
+(`exSt`: alice and Bob on `#c`, carol on no channel, dave on `#d`, one services link) showing that the
+hypotheses are satisfiable and that the outsiders are not among the recipients.
+-/
 namespace Robust.Props.C12
 open Robust Robust.Irc
-theorem C12_placeholder_init : invB ({} : St) = true := by decide
+
+/-! ## the example state -/
+
+def exAlice : Session :=
+  { id := ⟨1, 0⟩, nick := "alice", username := "al", loggedIn := true, channels := ["#c"], operator := true
+    ircPrefix := ⟨"alice", "al", "robust/0x1"⟩ }
+def exBob : Session :=
+  { id := ⟨2, 0⟩, nick := "Bob", username := "bo", loggedIn := true, channels := ["#c"]
+    ircPrefix := ⟨"Bob", "bo", "robust/0x2"⟩ }
+def exCarol : Session :=
+  { id := ⟨3, 0⟩, nick := "carol", username := "ca", loggedIn := true, channels := []
+    ircPrefix := ⟨"carol", "ca", "robust/0x3"⟩ }
+def exDave : Session :=
+  { id := ⟨4, 0⟩, nick := "dave", username := "da", loggedIn := true, channels := ["#d"]
+    ircPrefix := ⟨"dave", "da", "robust/0x4"⟩ }
+def exServ : Session :=
+  { id := ⟨9, 0⟩, server := true, ircPrefix := ⟨"services.example", "", ""⟩ }
+def exChanC : Channel := { name := "#c", nicks := [("alice", { chanop := true }), ("bob", {})], modes := ['n', 't'] }
+def exChanD : Channel := { name := "#d", nicks := [("dave", { chanop := true })], modes := ['n', 't'] }
+
+/-- alice (operator of `#c`, IRC operator) and Bob are on `#c`; carol is on no channel; dave is alone on `#d`;
+session 9 is a services link -/
+def exSt : St :=
+  { sessions := [(⟨1, 0⟩, exAlice), (⟨2, 0⟩, exBob), (⟨3, 0⟩, exCarol), (⟨4, 0⟩, exDave), (⟨9, 0⟩, exServ)]
+    nicks := [("alice", ⟨1, 0⟩), ("bob", ⟨2, 0⟩), ("carol", ⟨3, 0⟩), ("dave", ⟨4, 0⟩)]
+    channels := [("#c", exChanC), ("#d", exChanD)]
+    serverSessions := [9] }
+
+def exCtx : Ctx := { st := exSt, msgid := 7 }
+
+/-- the recipient lists of the lines a handler run produced -/
+def rcpts (r : Res Ctx) : Option (List (List Nat)) :=
+  match r with
+  | .ok c => some (c.out.map (·.rcpt))
+  | _ => none
+
+/-- the rendered lines -/
+def datas (r : Res Ctx) : Option (List Bytes) :=
+  match r with
+  | .ok c => some (c.out.map (·.data))
+  | _ => none
+
+/-- result of a recipient lookup -/
+def okIds (r : Res (List Nat)) : Option (List Nat) :=
+  match r with
+  | .ok l => some l
+  | _ => none
+
+/-- the example state satisfies every invariant the theorems assume -/
+theorem exSt_inv : GPInv exSt := ginv_of_ginvB (by decide)
+
+theorem exPre (sid : Id) (h : sid.reply = 0) (hs : ∃ s, AMap.get exSt.sessions sid = some s) : Pre exCtx sid :=
+  ⟨exSt_inv.ginv.inv, exSt_inv.ginv.linv, hs, h⟩
+
+/-! ## 1. the send helpers (`sendChannel`, `sendChannelButOne`, `sendCommonChannels`, `sendUser`,
+`sendAllUsers`, `sendServices`) -/
+
+/-- **sendChannel**: for a stored channel the lookup cannot panic and returns exactly the (numeric ids of the)
+sessions that list the channel. -/
+theorem C12_sendChannel {st : St} (h : GInv st) {lc : String} {ch : Channel}
+    (hc : AMap.get st.channels lc = some ch) :
+    ∃ ids, rcChannel st ch = .ok ids ∧ ∀ n, n ∈ ids ↔ ∃ id, Lists st lc id ∧ id.id = n :=
+  rcChannel_spec_inv h.inv h.ninv hc
+
+/-- **sendChannelButOne**: the same minus the session `user`. -/
+theorem C12_sendChannelButOne {st : St} (h : GInv st) {lc : String} {ch : Channel}
+    (hc : AMap.get st.channels lc = some ch) (user : Id) :
+    ∃ ids, rcChannelButOne st ch user = .ok ids ∧
+      ∀ n, n ∈ ids ↔ ∃ id, Lists st lc id ∧ id ≠ user ∧ id.id = n :=
+  rcChannelButOne_spec_inv h.inv h.ninv hc user
+
+/-- **sendCommonChannels**: exactly the sessions that list at least one of the channels the session value `u`
+lists — `u` itself included when it is stored and lists a channel. -/
+theorem C12_sendCommonChannels {st : St} (h : GInv st) (u : Session) :
+    ∃ ids, rcCommonChannels st u = .ok ids ∧
+      ∀ n, n ∈ ids ↔ ∃ lc id, lc ∈ u.channels ∧ Lists st lc id ∧ id.id = n :=
+  rcCommonChannels_spec_inv h.inv h.ninv u
+
+/-- … and a stored session that lists a channel is among its own common-channel recipients -/
+theorem C12_sendCommonChannels_self {st : St} (h : GInv st) {id : Id} {u : Session}
+    (hs : AMap.get st.sessions id = some u) {lc : String} (hl : lc ∈ u.channels) {ids : List Nat}
+    (hr : rcCommonChannels st u = .ok ids) : id.id ∈ ids := by
+  obtain ⟨ids', h1, h2⟩ := C12_sendCommonChannels h u
+  rw [hr] at h1; cases h1
+  exact (h2 id.id).2 ⟨lc, id, hl, ⟨u, hs, hl⟩, rfl⟩
+
+/-- **sendUser / sendServices / sendAllUsers**: one session; the services links; every indexed session. -/
+theorem C12_sendUser_sendServices_sendAllUsers {st : St} (h : GInv st) (sid : Id) (n : Nat) :
+    (n ∈ rcUser sid ↔ n = sid.id) ∧ (n ∈ rcServices st ↔ n ∈ st.serverSessions) ∧
+    (n ∈ rcAllUsers st ↔ ∃ x id, AMap.get st.nicks x = some id ∧ id.id = n) :=
+  ⟨mem_rcUser, Iff.rfl, mem_rcAllUsers h.inv.nickNodup⟩
+
+example : okIds (rcChannel exSt exChanC) = some [1, 2] := by decide
+example : okIds (rcChannelButOne exSt exChanC ⟨1, 0⟩) = some [2] := by decide
+example : okIds (rcCommonChannels exSt exAlice) = some [1, 2] := by decide
+example : okIds (rcCommonChannels exSt exCarol) = some [] := by decide
+example : ∃ ids, rcChannel exSt exChanC = .ok ids ∧ 3 ∉ ids ∧ 4 ∉ ids :=
+  ⟨[1, 2], rfl, by decide, by decide⟩
+example : GInv exSt := exSt_inv.ginv
+
+/-! ## 2. PRIVMSG / NOTICE -/
+
+/-- the identity under which the session stored under `sid` with value `s` speaks -/
+def senderPrefix (sid : Id) (s : Session) : Prefix := ⟨s.nick, s.username, "robust/0x" ++ hexNat sid.id⟩
+
+/-- a registered client session's stored prefix is its current nick, user name and session-derived host -/
+theorem C12_sender_identity {st : St} (h : GPInv st) {sid : Id} {s : Session}
+    (hs : AMap.get st.sessions sid = some s) (hsrv : s.server = false) (hl : s.loggedIn = true) :
+    s.ircPrefix = senderPrefix sid s := by
+  rw [PInv.prefix_eq h.pinv h.ginv.linv hs hsrv hl]
+  exact sessPrefix_stored h.ginv.inv.toWInvCore hs
+
+/-- **PRIVMSG/NOTICE, every line.**  Run by a registered client `sid` on any message `m`, `cmdPrivmsg` leaves the
+state unchanged and every line it produces is
+
+1. a numeric reply, delivered to the sender only; or
+2. the message, rendered under the sender's *current* nick, user name and session-derived host, and delivered
+   * for a channel target: to exactly the sessions that list that channel, minus the sender — nobody else,
+     not even the services links;
+   * for a `$…` target of an IRC operator: to every indexed session;
+   * for a nickname target: to the one session that owns that nickname. -/
+theorem C12_privmsg {c c' : Ctx} {sid : Id} {m : IrcMsg} {s : Session} (h : GPInv c.st)
+    (hs : AMap.get c.st.sessions sid = some s) (hsrv : s.server = false) (hl : s.loggedIn = true)
+    (hr : cmdPrivmsg c sid m = .ok c') :
+    c'.st = c.st ∧ ∀ new, c'.out = c.out ++ new → ∀ o ∈ new,
+      o.rcpt = [sid.id] ∨
+      ∃ p0, m.params[0]? = some p0 ∧
+        o.data = (IrcMsg.mk (some (senderPrefix sid s)) m.command [p0, m.trailing]).render ∧
+        ((hasPrefix p0 "#" = true ∧ RcptIs o (fun id => Lists c.st (chanToLower p0) id ∧ id ≠ sid) []) ∨
+         (hasPrefix p0 "#" = false ∧ hasPrefix p0 "$" = true ∧ s.operator = true ∧ o.rcpt = rcAllUsers c.st) ∨
+         (hasPrefix p0 "#" = false ∧ hasPrefix p0 "$" = false ∧
+            ∃ tid t, AMap.get c.st.nicks (nickToLower p0) = some tid ∧ AMap.get c.st.sessions tid = some t ∧
+              nickToLower t.nick = nickToLower p0 ∧ o.rcpt = [tid.id])) := by
+  obtain ⟨hst, hout⟩ := cmdPrivmsg_out h.ginv.inv.toWInv hs hr
+  refine ⟨hst, fun new hnew o ho => ?_⟩
+  have hid := C12_sender_identity h hs hsrv hl
+  cases hout.elim hnew o ho with
+  | reply hh => exact Or.inl hh
+  | chan p0 ch hp hh hc hmay hd hrc =>
+    exact Or.inr ⟨p0, hp, by rw [hd, hid], Or.inl ⟨hh, privmsg_chan_rcptIs h.ginv.inv h.ginv.ni hrc⟩⟩
+  | wall p0 hp hh hd' hop hd hrc =>
+    exact Or.inr ⟨p0, hp, by rw [hd, hid], Or.inr (Or.inl ⟨hh, hd', hop, hrc⟩)⟩
+  | user p0 tid t hp hh hd' hi ht hown hG hd hrc =>
+    exact Or.inr ⟨p0, hp, by rw [hd, hid], Or.inr (Or.inr ⟨hh, hd', tid, t, hi, ht, hown, hrc⟩)⟩
+
+/-- **no eavesdropping.**  Whatever a (non-operator) client sends with PRIVMSG/NOTICE to a channel name `p0`,
+a numeric id `n` that is neither the sender's nor that of a session listing the channel receives nothing. -/
+theorem C12_privmsg_no_eavesdrop {c c' : Ctx} {sid : Id} {m : IrcMsg} {s : Session} {p0 : String} (h : GPInv c.st)
+    (hs : AMap.get c.st.sessions sid = some s) (hsrv : s.server = false) (hl : s.loggedIn = true)
+    (hp : m.params[0]? = some p0) (hh : hasPrefix p0 "#" = true)
+    (hr : cmdPrivmsg c sid m = .ok c') {new : List Out} (hnew : c'.out = c.out ++ new) {o : Out} (ho : o ∈ new)
+    {n : Nat} (hn : n ∈ o.rcpt) : n = sid.id ∨ ∃ id, Lists c.st (chanToLower p0) id ∧ id ≠ sid ∧ id.id = n := by
+  rcases (C12_privmsg h hs hsrv hl hr).2 new hnew o ho with hrep | ⟨p0', hp', _, hcase⟩
+  · rw [hrep] at hn
+    exact Or.inl (by simpa using hn)
+  · rw [hp] at hp'; cases hp'
+    rcases hcase with ⟨_, hrc⟩ | ⟨hf, _⟩ | ⟨hf, _⟩
+    · rcases hrc.sound hn with ⟨id, ⟨h1, h2⟩, h3⟩ | h
+      · exact Or.inr ⟨id, h1, h2, h3⟩
+      · cases h
+    · rw [hh] at hf; cases hf
+    · rw [hh] at hf; cases hf
+
+/-- **delivery.**  A PRIVMSG/NOTICE with a text to an existing channel, sent by a member (or by anybody when the
+channel is not `+n`), succeeds and produces exactly one line: the message under the sender's identity, whose
+recipients are exactly the other sessions listing the channel — so every other current member receives it. -/
+theorem C12_privmsg_channel_delivered {c : Ctx} {sid : Id} {m : IrcMsg} {s : Session} {p0 : String} {ch : Channel}
+    (h : GPInv c.st) (hs : AMap.get c.st.sessions sid = some s) (hsrv : s.server = false) (hl : s.loggedIn = true)
+    (hp : m.params[0]? = some p0) (hlen : 2 ≤ m.params.length) (hh : hasPrefix p0 "#" = true)
+    (hc : AMap.get c.st.channels (chanToLower p0) = some ch)
+    (hmay : AMap.contains ch.nicks (nickToLower s.nick) = true ∨ ch.modes.contains 'n' = false) :
+    ∃ rc, cmdPrivmsg c sid m = .ok (emit c ⟨some (senderPrefix sid s), m.command, [p0, m.trailing]⟩ rc) ∧
+      ∀ n, n ∈ rc ↔ ∃ id, (Lists c.st (chanToLower p0) id ∧ id ≠ sid) ∧ id.id = n := by
+  obtain ⟨rc, h1, h2⟩ := cmdPrivmsg_chan_delivers h.ginv.inv.toWInv hs hp hlen hh hc hmay
+  rw [C12_sender_identity h hs hsrv hl] at h1
+  refine ⟨rc, h1, fun n => ?_⟩
+  rw [h2]
+  constructor
+  · rintro ⟨id, ho, hne, he⟩; exact ⟨id, ⟨(onChan_iff_lists' h.ginv.inv h.ginv.ni).1 ho, hne⟩, he⟩
+  · rintro ⟨id, ⟨ho, hne⟩, he⟩; exact ⟨id, (onChan_iff_lists' h.ginv.inv h.ginv.ni).2 ho, hne, he⟩
+
+/-! non-vacuity: alice says "hi" on `#c` — Bob (2) and nobody else gets it, under alice's identity;
+carol (not on `#c`, which is `+n`) only gets a 404 back; a private message reaches only its addressee -/
+example : rcpts (cmdPrivmsg exCtx ⟨1, 0⟩ ⟨none, "PRIVMSG", ["#c", "hi"]⟩) = some [[2]] := by decide
+example : datas (cmdPrivmsg exCtx ⟨1, 0⟩ ⟨none, "PRIVMSG", ["#c", "hi"]⟩) =
+    some [(IrcMsg.mk (some ⟨"alice", "al", "robust/0x1"⟩) "PRIVMSG" ["#c", "hi"]).render] := by rfl
+example : rcpts (cmdPrivmsg exCtx ⟨3, 0⟩ ⟨none, "NOTICE", ["#c", "hi"]⟩) = some [[3]] := by decide
+example : rcpts (cmdPrivmsg exCtx ⟨3, 0⟩ ⟨none, "PRIVMSG", ["BOB", "psst"]⟩) = some [[2]] := by decide
+example : exAlice.ircPrefix = senderPrefix ⟨1, 0⟩ exAlice := by decide
+
+/-- the theorem applied to the example: whatever alice's `PRIVMSG #c` produces, carol (3) and dave (4) and the
+services link (9) are not among the recipients of any line -/
+example (c' : Ctx) (hr : cmdPrivmsg exCtx ⟨1, 0⟩ ⟨none, "PRIVMSG", ["#c", "hi"]⟩ = .ok c') :
+    ∀ o ∈ c'.out, 3 ∉ o.rcpt ∧ 4 ∉ o.rcpt ∧ 9 ∉ o.rcpt := by
+  intro o ho
+  have key : ∀ n, n ∈ o.rcpt → n = 1 ∨ n = 2 := by
+    intro n hn
+    rcases C12_privmsg_no_eavesdrop (s := exAlice) (p0 := "#c") exSt_inv rfl rfl rfl rfl (by decide) hr
+      (new := c'.out) (by simp [exCtx]) ho hn with h | ⟨id, ⟨s, hs, hl⟩, _, he⟩
+    · exact Or.inl h
+    · have hm := AMap.mem_of_get hs
+      have : ∀ e ∈ exSt.sessions, chanToLower "#c" ∈ e.2.channels → e.1.id = 1 ∨ e.1.id = 2 := by decide
+      rw [← he]
+      exact this _ hm hl
+  refine ⟨fun h => ?_, fun h => ?_, fun h => ?_⟩ <;> (rcases key _ h with h | h <;> cases h)
+
+/-! ## 3. JOIN, PART, KICK, TOPIC, MODE, INVITE (and KNOCK)
+
+Each theorem says: every line the command appends is one of the constructors of the corresponding `…Line`
+type — read them in `RcptJoin.lean`, `RcptLeave.lean`, `RcptTopicMode.lean`.  In each, `reply` is a line for the
+acting session only; the relayed line carries `s.ircPrefix` (= `senderPrefix sid s` by `C12_sender_identity`) and
+its recipients are given by `RcptIs` — exactly the sessions listing the channel concerned (for JOIN: plus the
+joiner), plus the services links where the Go code adds `sendServices`.  For the multi-channel commands the
+recipients are stated relative to the state in which the *command* starts. -/
+
+/-- the hypotheses under which `ProcessMessage` calls a handler, from the invariant -/
+theorem pre_of {c : Ctx} {sid : Id} {s : Session} (h : GPInv c.st) (h0 : sid.reply = 0)
+    (hs : AMap.get c.st.sessions sid = some s) : Pre c sid :=
+  ⟨h.ginv.inv, h.ginv.linv, ⟨s, hs⟩, h0⟩
+
+/-- **JOIN**: the JOIN line (and the server's `MODE +nt` for a new channel) goes to exactly the joiner and the
+sessions that list the channel; `SJOIN` to the services links only; everything else (403/473/474/475, and the
+implied MODE/TOPIC/NAMES answers) to the joiner only. -/
+theorem C12_join {c c' : Ctx} {sid : Id} {m : IrcMsg} {s : Session} {p0 : String} (h : GPInv c.st)
+    (h0 : sid.reply = 0) (hs : AMap.get c.st.sessions sid = some s) (hl : s.loggedIn = true)
+    (hp0 : m.params[0]? = some p0) (hr : cmdJoin c sid m = .ok c') :
+    NewOut (JoinLine c.st sid s (splitChar p0 ',')) c c' :=
+  cmdJoin_out (pre_of h h0 hs) h.ginv.ni hs hl hp0 hr
+
+/-- JOIN of one channel changes the membership relation by at most "the joiner now lists that channel" -/
+theorem C12_join_membership {c c' : Ctx} {sid : Id} {chn key : String} {s : Session} (h : GPInv c.st)
+    (h0 : sid.reply = 0) (hs : AMap.get c.st.sessions sid = some s) (hl : s.loggedIn = true)
+    (hr : joinOne c sid chn key = .ok c') :
+    SameLists c.st c'.st ∨
+      ∀ lc id, Lists c'.st lc id ↔ Lists c.st lc id ∨ (id = sid ∧ lc = chanToLower chn) :=
+  joinOne_lists (pre_of h h0 hs) h.ginv.ni hs hl hr
+
+/-- **PART**: the PART line goes to exactly the sessions listing the channel (the leaving one included) and the
+services links; 403/442 to the sender only. -/
+theorem C12_part {c c' : Ctx} {sid : Id} {m : IrcMsg} {s : Session} {p0 : String} (h : GPInv c.st)
+    (h0 : sid.reply = 0) (hs : AMap.get c.st.sessions sid = some s) (hl : s.loggedIn = true)
+    (hp0 : m.params[0]? = some p0) (hr : cmdPart c sid m = .ok c') :
+    NewOut (PartLine c.st sid s (splitChar p0 ',')) c c' :=
+  cmdPart_out (pre_of h h0 hs) h.ginv.ni hs hl hp0 hr
+
+/-- PART of one channel: afterwards exactly the sender no longer lists exactly that channel (or nothing changed) -/
+theorem C12_part_membership {c c' : Ctx} {sid : Id} {chn : String} {s : Session} (h : GPInv c.st)
+    (hs : AMap.get c.st.sessions sid = some s) (hr : partOne c sid chn = .ok c') :
+    SameLists c.st c'.st ∨
+      ∀ lc id, Lists c'.st lc id ↔ Lists c.st lc id ∧ ¬ (id = sid ∧ lc = chanToLower chn) :=
+  partOne_lists h.ginv.inv h.ginv.ni hs hr
+
+/-- **KICK**: the KICK line goes to exactly the sessions listing the channel (the kicked one included) and the
+services links; the sender is a channel operator of that channel; 403/442/482/441 to the sender only. -/
+theorem C12_kick {c c' : Ctx} {sid : Id} {m : IrcMsg} {s : Session} (h : GPInv c.st)
+    (hs : AMap.get c.st.sessions sid = some s) (hr : cmdKick c sid m = .ok c') :
+    NewOut (KickLine c.st sid s m) c c' :=
+  cmdKick_out h.ginv.inv h.ginv.ni hs hr
+
+/-- after KICK exactly the target no longer lists exactly that channel (or nothing changed): a later channel
+message is no longer delivered to it (`C12_privmsg` is stated in terms of the same relation `Lists`) -/
+theorem C12_kick_membership {c c' : Ctx} {sid : Id} {m : IrcMsg} (h : GPInv c.st)
+    (hr : cmdKick c sid m = .ok c') :
+    SameLists c.st c'.st ∨
+    ∃ chn target tid, m.params[0]? = some chn ∧ m.params[1]? = some target ∧
+      AMap.get c.st.nicks (nickToLower target) = some tid ∧
+      ∀ lc id, Lists c'.st lc id ↔ Lists c.st lc id ∧ ¬ (id = tid ∧ lc = chanToLower chn) :=
+  cmdKick_lists h.ginv.inv hr
+
+/-- **TOPIC**: the topic change goes to exactly the sessions listing the channel (the sender is one of them), a copy
+to the services links only; 403/442/482/331/332/333 to the sender only. -/
+theorem C12_topic {c c' : Ctx} {sid : Id} {m : IrcMsg} {s : Session} (h : GPInv c.st)
+    (hs : AMap.get c.st.sessions sid = some s) (hr : cmdTopic c sid m = .ok c') :
+    NewOut (TopicLine c.st sid s m) c c' :=
+  cmdTopic_out h.ginv.inv h.ginv.ni hs hr
+
+/-- **MODE**: a channel mode change goes to exactly the sessions listing the channel (the sender is one of them) and
+the services links; a user mode query/change to the sender resp. the target user (the sender itself unless it is an
+IRC operator) and the services links; everything else to the sender only. -/
+theorem C12_mode {c c' : Ctx} {sid : Id} {m : IrcMsg} {s : Session} (h : GPInv c.st)
+    (hs : AMap.get c.st.sessions sid = some s) (hr : cmdMode c sid m = .ok c') :
+    NewOut (ModeLine c.st sid s m) c c' :=
+  cmdMode_out h.ginv.inv h.ginv.ni hs hr
+
+/-- **INVITE**: the INVITE line goes to the invited session and the services links only, the server NOTICE to exactly
+the sessions listing the channel, 341/301 and the error numerics to the sender only; membership is unchanged. -/
+theorem C12_invite {c c' : Ctx} {sid : Id} {m : IrcMsg} {s : Session} (h : GPInv c.st)
+    (hs : AMap.get c.st.sessions sid = some s) (hr : cmdInvite c sid m = .ok c') :
+    NewOut (InviteLine c.st sid s m) c c' ∧ SameLists c.st c'.st :=
+  cmdInvite_out h.ginv.inv h.ginv.ni hs hr
+
+/-- **KNOCK**: the server NOTICE goes to exactly the sessions listing the (invite-only) channel. -/
+theorem C12_knock {c c' : Ctx} {sid : Id} {m : IrcMsg} (h : GPInv c.st) (hr : cmdKnock c sid m = .ok c') :
+    c'.st = c.st ∧ NewOut (KnockLine c.st sid m) c c' :=
+  cmdKnock_out h.ginv.inv h.ginv.ni hr
+
+/-! non-vacuity (dave = 4 is on `#d` only and never appears; the services link is 9):
+carol joins `#c`: JOIN to alice, Bob, carol; SJOIN to the link; the rest to carol -/
+example : rcpts (cmdJoin exCtx ⟨3, 0⟩ ⟨none, "JOIN", ["#c"]⟩) = some [[1, 2, 3], [9], [3], [3], [3], [3]] := by decide
+/-- Bob parts: alice, Bob and the link -/
+example : rcpts (cmdPart exCtx ⟨2, 0⟩ ⟨none, "PART", ["#c"]⟩) = some [[1, 2, 9]] := by decide
+/-- alice kicks Bob: alice, Bob and the link; carol may not kick (442 to her only) -/
+example : rcpts (cmdKick exCtx ⟨1, 0⟩ ⟨none, "KICK", ["#c", "bob", "bye"]⟩) = some [[1, 2, 9]] := by decide
+example : rcpts (cmdKick exCtx ⟨3, 0⟩ ⟨none, "KICK", ["#c", "bob", "bye"]⟩) = some [[3]] := by decide
+example : rcpts (cmdTopic exCtx ⟨1, 0⟩ ⟨none, "TOPIC", ["#c", "new topic"]⟩) = some [[1, 2], [9]] := by decide
+/-- (a mode *string* goes through a UTF-8 byte conversion that the kernel cannot evaluate, so the two evaluated
+instances are the query forms: channel mode query → 324 to alice; user mode query → alice and the link) -/
+example : rcpts (cmdMode exCtx ⟨1, 0⟩ ⟨none, "MODE", ["#c"]⟩) = some [[1]] := by decide
+example : rcpts (cmdMode exCtx ⟨1, 0⟩ ⟨none, "MODE", ["alice"]⟩) = some [[1, 9]] := by decide
+example : rcpts (cmdInvite exCtx ⟨1, 0⟩ ⟨none, "INVITE", ["carol", "#c"]⟩) = some [[1], [3, 9], [1, 2]] := by decide
+example : datas (cmdKick exCtx ⟨1, 0⟩ ⟨none, "KICK", ["#c", "bob", "bye"]⟩) =
+    some [(IrcMsg.mk (some ⟨"alice", "al", "robust/0x1"⟩) "KICK" ["#c", "bob", "bye"]).render] := by rfl
+/-- after the kick Bob no longer lists `#c`, so alice's next message reaches nobody -/
+example : (match cmdKick exCtx ⟨1, 0⟩ ⟨none, "KICK", ["#c", "bob", "bye"]⟩ with
+    | .ok c => rcpts (cmdPrivmsg { c with out := [] } ⟨1, 0⟩ ⟨none, "PRIVMSG", ["#c", "anyone?"]⟩)
+    | _ => none) = some [[]] := by decide
+example : Pre exCtx ⟨3, 0⟩ := exPre _ rfl ⟨exCarol, rfl⟩
+
+/-! ## 4. NICK, QUIT, KILL -/
+
+/-- **NICK**: the nick change is announced under the *old* prefix to exactly the sender, the sessions that share a
+channel with it, and the services links; 431/432/433 and the welcome burst of an implied login to the sender only;
+the login burst (`NICK …`, `PRIVMSG NickServ`) to the services links only.  Membership is unchanged. -/
+theorem C12_nick {c c' : Ctx} {sid : Id} {m : IrcMsg} {s : Session} (h : GPInv c.st) (h0 : sid.reply = 0)
+    (hs : AMap.get c.st.sessions sid = some s) (hr : cmdNick c sid m = .ok c') :
+    NewOut (NickLine c.st sid s m) c c' ∧ SameLists c.st c'.st :=
+  cmdNick_out (pre_of h h0 hs) h.ginv.ni hs hr
+
+/-- **QUIT**: the QUIT line goes to exactly the *other* sessions that share a channel with the leaving one, and the
+services links; the closing ERROR to the session being closed only. -/
+theorem C12_quit {c c' : Ctx} {sid : Id} {m : IrcMsg} {s : Session} (h : GPInv c.st) (h0 : sid.reply = 0)
+    (hs : AMap.get c.st.sessions sid = some s) (hr : cmdQuit c sid m = .ok c') :
+    NewOut (QuitLine c.st sid s m) c c' :=
+  cmdQuit_out (pre_of h h0 hs) h.ginv.ni hs hr
+
+/-- after QUIT the sessions on a channel are exactly the former members other than the one that left -/
+theorem C12_quit_membership {c c' : Ctx} {sid : Id} {m : IrcMsg} {s : Session} (h : GPInv c.st) (h0 : sid.reply = 0)
+    (hs : AMap.get c.st.sessions sid = some s) (hnick : s.nick ≠ "") (hr : cmdQuit c sid m = .ok c') :
+    ∀ lc id, OnChan c'.st lc id ↔ Lists c.st lc id ∧ id ≠ sid :=
+  cmdQuit_onChan (pre_of h h0 hs) h.ginv.ni hs hnick hr
+
+/-- **KILL** (IRC operators only): the victim's QUIT goes to exactly the other sessions sharing a channel with the
+victim, and the services links; the KILL line and the closing ERROR to the victim only; 481/401 to the sender only. -/
+theorem C12_kill {c c' : Ctx} {sid : Id} {m : IrcMsg} {s : Session} (h : GPInv c.st) (h0 : sid.reply = 0)
+    (hs : AMap.get c.st.sessions sid = some s) (hr : cmdKill c sid m = .ok c') :
+    NewOut (KillLine c.st sid s m) c c' :=
+  cmdKill_out (pre_of h h0 hs) h.ginv.ni hs hr
+
+/-! non-vacuity: alice → alicia: alice (twice: `sendUser` and as a member), Bob, the link; never carol or dave -/
+example : rcpts (cmdNick exCtx ⟨1, 0⟩ ⟨none, "NICK", ["alicia"]⟩) = some [[1, 2, 1, 9]] := by decide
+example : datas (cmdNick exCtx ⟨1, 0⟩ ⟨none, "NICK", ["alicia"]⟩) =
+    some [(IrcMsg.mk (some ⟨"alice", "al", "robust/0x1"⟩) "NICK" ["alicia"]).render] := by rfl
+/-- a case-only nick change (`Bob` → `BOB`) is announced the same way -/
+example : rcpts (cmdNick exCtx ⟨2, 0⟩ ⟨none, "NICK", ["BOB"]⟩) = some [[2, 1, 2, 9]] := by decide
+/-- alice quits: QUIT to Bob and the link, ERROR to alice -/
+example : rcpts (cmdQuit exCtx ⟨1, 0⟩ ⟨none, "QUIT", ["bye"]⟩) = some [[2, 9], [1]] := by decide
+/-- alice (IRC operator) kills dave, emptying `#d`: QUIT to the link only, KILL and ERROR to dave -/
+example : rcpts (cmdKill exCtx ⟨1, 0⟩ ⟨none, "KILL", ["dave", "spam"]⟩) = some [[9], [4], [4]] := by decide
+/-- Bob is not an operator: 481 to him only -/
+example : rcpts (cmdKill exCtx ⟨2, 0⟩ ⟨none, "KILL", ["dave", "spam"]⟩) = some [[2]] := by decide
+
+/-! ## 5. identity -/
+
+/-- **the identity invariant is inductive**: every state reachable from the initial one by a well-formed history
+satisfies `GPInv`, i.e. the consistency invariant of C14 and: every stored client session's relay prefix is
+`⟨nick, username, "robust/0x" ++ hex id⟩` for its *current* nick and user name (`updateIrcPrefix` follows every
+change), or the session is still blank. -/
+theorem C12_identity_reachable {es : List Entry} {st : St} (hw : WfHistory {} es) (hr : runEntries {} es = .ok st) :
+    GPInv st :=
+  run_preserves_gp GPInv_init hw hr
+
+/-- one entry preserves it -/
+theorem C12_identity_step (st st' : St) (e : Entry) (out : List Out) (h : GPInv st) (he : EntryOk st e)
+    (hr : applyEntry st e = .ok (st', out)) : GPInv st' :=
+  applyEntry_preserves_gp st st' e out h he hr
+
+/-- every handler of the command table preserves the identity invariant -/
+theorem C12_identity_handlers {fname : String} {h : Handler} (hh : handlerByName fname = some h) : PPres h :=
+  handler_ppres hh
+
+example : PInv exSt := exSt_inv.pinv
+/-- after NICK the stored prefix has followed the nickname -/
+example : (match cmdNick exCtx ⟨1, 0⟩ ⟨none, "NICK", ["alicia"]⟩ with
+    | .ok c => (AMap.get c.st.sessions ⟨1, 0⟩).map (·.ircPrefix)
+    | _ => none) = some ⟨"alicia", "al", "robust/0x1"⟩ := by decide
+
+/-- **the prefix names the sender**: the nickname in a registered client's relay prefix is indexed to that very
+session — a line rendered under `s.ircPrefix` cannot be attributed to anybody else -/
+theorem C12_prefix_names_sender {st : St} (h : GPInv st) {sid : Id} {s : Session}
+    (hs : AMap.get st.sessions sid = some s) (hsrv : s.server = false) (hl : s.loggedIn = true) :
+    AMap.get st.nicks (nickToLower s.ircPrefix.name) = some sid := by
+  rw [C12_sender_identity h hs hsrv hl]
+  exact h.ginv.inv.owns sid s hs (h.ginv.inv.noDeleted sid s hs) (h.ginv.linv sid s hs hl)
+
+/-- **no impersonation**: two stored registered client sessions whose relay prefixes carry the same nickname (up to
+IRC case folding) are the same session -/
+theorem C12_no_impersonation {st : St} (h : GPInv st) {a b : Id} {sa sb : Session}
+    (ha : AMap.get st.sessions a = some sa) (hb : AMap.get st.sessions b = some sb)
+    (ha1 : sa.server = false) (ha2 : sa.loggedIn = true) (hb1 : sb.server = false) (hb2 : sb.loggedIn = true)
+    (he : nickToLower sa.ircPrefix.name = nickToLower sb.ircPrefix.name) : a = b := by
+  have h1 := C12_prefix_names_sender h ha ha1 ha2
+  have h2 := C12_prefix_names_sender h hb hb1 hb2
+  rw [he, h2] at h1
+  cases h1; rfl
+
+/-- **services PRIVMSG/NOTICE** (sent by a services link for one of its pseudo-clients): numeric replies go to the
+services links only; a channel message to exactly the sessions listing the channel; a private message to the owner
+of the target nickname only.  (The prefix is the one the trusted link supplies, with user and host `services`.) -/
+theorem C12_services_privmsg {c c' : Ctx} {sid : Id} {m : IrcMsg} (h : GPInv c.st)
+    (hr : cmdServerPrivmsg c sid m = .ok c') : c'.st = c.st ∧ NewOut (SrvPrivmsgLine c.st m) c c' :=
+  cmdServerPrivmsg_out h.ginv.inv h.ginv.ni hr
+
+example : AMap.get exSt.nicks (nickToLower exBob.ircPrefix.name) = some ⟨2, 0⟩ := by decide
+/-- ChanServ (a pseudo-client of link 9) speaks on `#c`: alice and Bob, nobody else -/
+example : rcpts (cmdServerPrivmsg exCtx ⟨9, 0⟩ ⟨some ⟨"ChanServ", "", ""⟩, "NOTICE", ["#c", "hello"]⟩) = some [[1, 2]] := by
+  decide
+example : rcpts (cmdServerPrivmsg exCtx ⟨9, 0⟩ ⟨some ⟨"NickServ", "", ""⟩, "NOTICE", ["nobody", "hello"]⟩) = some [[9]] := by
+  decide
+
+/-! ## 6. whole entries, all client commands -/
+
+/-- **every line of every client command.**  For an `IRCFromClient` entry `e` sent by a *client* session (not a
+services link) in a state satisfying the invariant: the handler runs in a state `stH` that equals the state before
+the entry up to bookkeeping fields of the acting session (`lastActivity`, `lastNonPing`, `lastClientMessageId`,
+`remoteAddr`) and that satisfies the invariant again; and every line of the entry's output batch is either for the
+acting session only (the gate's 421/451/461, a ban/timeout `ERROR`, replies of read-only commands) or is classified
+by `ClientLine stH …`, i.e. by the `…Line` type of the handler the command table selects — each constructor of which
+fixes the exact recipient set. -/
+theorem C12_entry_client {st st' : St} {e : Entry} {out : List Out} {s : Session}
+    (h : GPInv st) (he : EntryOk st e) (ht : e.type = 2)
+    (hs : AMap.get st.sessions e.session = some s) (hsrv : s.server = false)
+    (hr : applyEntry st e = .ok (st', out)) :
+    ∃ stH sH, StBk st stH e.session ∧ AMap.get stH.sessions e.session = some sH ∧ Session.Bk s sH ∧
+      GPInv stH ∧
+      ∀ o ∈ out, ToOnly e.session o ∨ ∃ m, parseMessage e.data = some m ∧ ClientLine stH e.session sH m o :=
+  applyEntry_client_out h he ht hs hsrv hr
+
+/-- the same for a `DeleteSession` entry (session expiry / explicit delete: the server runs `QUIT :<reason>`) -/
+theorem C12_entry_delete {st st' : St} {e : Entry} {out : List Out} {s : Session}
+    (h : GPInv st) (he : EntryOk st e) (ht : e.type = 1)
+    (hs : AMap.get st.sessions e.session = some s) (hsrv : s.server = false)
+    (hr : applyEntry st e = .ok (st', out)) :
+    ∃ stH sH, StBk st stH e.session ∧ AMap.get stH.sessions e.session = some sH ∧ Session.Bk s sH ∧
+      GPInv stH ∧
+      ∀ o ∈ out, ToOnly e.session o ∨
+        ∃ m, parseMessage ("QUIT :" ++ e.data) = some m ∧ ClientLine stH e.session sH m o :=
+  applyEntry_delete_out h he ht hs hsrv hr
+
+/-- all other entry types produce no output at all -/
+theorem C12_entry_silent {st st' : St} {e : Entry} {out : List Out} (ht : e.type ≠ 1 ∧ e.type ≠ 2)
+    (hr : applyEntry st e = .ok (st', out)) : out = [] := by
+  unfold applyEntry at hr
+  split at hr
+  · cases hr; rfl
+  split at hr
+  · cases hr; rfl
+  split at hr
+  · exact absurd ‹e.type = 1› ht.1
+  split at hr
+  · exact absurd ‹e.type = 2› ht.2
+  split at hr
+  · split at hr <;> (cases hr; rfl)
+  · cases hr; rfl
+
+/-- … for all histories: in every reachable state the classification applies to the next entry -/
+theorem C12_history {es : List Entry} {st st' : St} {e : Entry} {out : List Out} {s : Session}
+    (hw : WfHistory {} es) (hrun : runEntries {} es = .ok st) (he : EntryOk st e) (ht : e.type = 2)
+    (hs : AMap.get st.sessions e.session = some s) (hsrv : s.server = false)
+    (hr : applyEntry st e = .ok (st', out)) :
+    ∃ stH sH, StBk st stH e.session ∧ AMap.get stH.sessions e.session = some sH ∧ Session.Bk s sH ∧
+      GPInv stH ∧
+      ∀ o ∈ out, ToOnly e.session o ∨ ∃ m, parseMessage e.data = some m ∧ ClientLine stH e.session sH m o :=
+  C12_entry_client (C12_identity_reachable hw hrun) he ht hs hsrv hr
+
+/-- the same one level below `applyEntry`: `ProcessMessage` (remote-address stage, registration gate, command
+table, handler) on an already parsed line, started with an empty output batch -/
+theorem C12_processMessage_client {st : St} {c' : Ctx} {e : Entry} {im : Option IrcMsg} {s : Session}
+    (h : GPInv st) (hr0 : e.session.reply = 0) (hs : AMap.get st.sessions e.session = some s)
+    (hsrv : s.server = false) (hr : processMessage { st := st, msgid := e.id } e im = .ok c') :
+    ∃ stH sH, StBk st stH e.session ∧ AMap.get stH.sessions e.session = some sH ∧ Session.Bk s sH ∧
+      GPInv stH ∧
+      ∀ o ∈ c'.out, ToOnly e.session o ∨ ∃ m, im = some m ∧ ClientLine stH e.session sH m o :=
+  processMessage_client_lines h hr0 hs hsrv hr
+
+/-- an `IRCFromClient` entry -/
+def exEntry (sid : Nat) (line : String) : Entry :=
+  { type := 2, id := 7, session := ⟨sid, 0⟩, data := line, unixNano := 1000, cmid := 5, rev := 0,
+    remoteAddr := "", cfg := none }
+
+/-! non-vacuity.  (`parseMessage` is not evaluable by the kernel — UTF-8 byte sizes — so the evaluated instances
+run `processMessage`, i.e. everything after parsing, on the parsed line; the command is matched case-insensitively
+by the gate.)  alice's `privmsg #c :hello` reaches Bob only; carol's gets the 404 back; an unknown command gets a
+421 back; dave, before and after, hears nothing. -/
+example : rcpts (processMessage exCtx (exEntry 1 "privmsg #c :hello") (some ⟨none, "privmsg", ["#c", "hello"]⟩))
+    = some [[2]] := by decide
+example : rcpts (processMessage exCtx (exEntry 3 "PRIVMSG #c :let me in") (some ⟨none, "PRIVMSG", ["#c", "let me in"]⟩))
+    = some [[3]] := by decide
+example : rcpts (processMessage exCtx (exEntry 3 "FROBNICATE") (some ⟨none, "FROBNICATE", []⟩)) = some [[3]] := by
+  decide
+example : rcpts (processMessage exCtx (exEntry 3 "JOIN #c") (some ⟨none, "JOIN", ["#c"]⟩))
+    = some [[1, 2, 3], [9], [3], [3], [3], [3]] := by decide
+example : EntryOk exSt (exEntry 1 "privmsg #c :hello") := ⟨fun _ => rfl, fun h => by cases h⟩
+example : (exEntry 1 "x").type = 2 ∧ AMap.get exSt.sessions (exEntry 1 "x").session = some exAlice ∧
+    exAlice.server = false := ⟨rfl, rfl, rfl⟩
+
 end Robust.Props.C12
